@@ -34,7 +34,18 @@ theorem lexLine_numbers_fit (src : Text) (toks : List Token) (h : lexLine src = 
   obtain ⟨new, hres, _, _, hnum⟩ := hs
   simp only [List.nil_append] at hres
   subst hres
-  exact hnum
+  exact fun t ht => (hnum t ht).1
+
+/-- **what the parser may rely on, token by token**: values are non-empty (except `Eol` and comments), numbers are digits,
+    diacritic tokens index the table, feature tokens are `tone: digits` or a row of the feature table with a sign -/
+theorem lexLine_tokens_ok (src : Text) (toks : List Token) (h : lexLine src = .ok toks) : ∀ t ∈ toks, TokX t := by
+  have hs := lineLoop_spec (src.length + 1) { src := src, pos := 0 } [] (Nat.lt_succ_self _)
+  unfold lexLine at h
+  rw [h] at hs
+  obtain ⟨new, hres, _, _, hnum⟩ := hs
+  simp only [List.nil_append] at hres
+  subst hres
+  exact fun t ht => (hnum t ht).2
 
 /-- every token's span is inside `[0, len + 1]` and non-empty -/
 theorem wellSpaced_mem {lo total : Nat} {toks : List Token} (h : WellSpaced lo total toks) :
